@@ -13,10 +13,10 @@ func init() { register("C05", propC05) }
 
 func propC05() *Property {
 	return &Property{
-		ID:      "C05",
-		NeedCG:  true,
-		Decides: "choke-point structure: R05.1 every write to an underlay's network connection is gated by the send-cipher initialisation (stream) / uses a cipher obtained from an authenticated decrypt (packet); R05.2 the stream send cipher derives only from the receive cipher, which is set only from a successful Registry.Discover (server) or the client's own key; R05.3 on the packet server path no segment is returned unless a decrypt succeeded, and segment/session ciphers are only ever copies of authenticated ciphers; R05.4 server sessions are created only by onOpenSessionRequest, called only from the event loops, after validateNewServerSessionSegment, and readySessions is fed only there; R05.5 the failure branches (crypto/replay error, undecryptable datagram) call nothing that can write to the connection.; R05.8 every SetUsers call publishes the new users: a retired credential does not survive a reload (shared with R07.8); R05.9 every datagram and every first stream segment is looked up in (and recorded by) the replay cache before any decryption, and a replay yields no segment (shared with R06.1, R06.2): observed traffic re-sent by a party without a credential creates nothing",
-		NotDecided: "timing side channels, the drain's length distribution, TCP-level behaviour (RST vs FIN), strength of the AEAD itself.",
+		ID:          "C05",
+		NeedCG:      true,
+		Decides:     "choke-point structure: R05.1 every write to an underlay's network connection is gated by the send-cipher initialisation (stream) / uses a cipher obtained from an authenticated decrypt (packet); R05.2 the stream send cipher derives only from the receive cipher, which is set only from a successful Registry.Discover (server) or the client's own key; R05.3 on the packet server path no segment is returned unless a decrypt succeeded, and segment/session ciphers are only ever copies of authenticated ciphers; R05.4 server sessions are created only by onOpenSessionRequest, called only from the event loops, after validateNewServerSessionSegment, and readySessions is fed only there; R05.5 the failure branches (crypto/replay error, undecryptable datagram) call nothing that can write to the connection.; R05.8 every SetUsers call publishes the new users: a retired credential does not survive a reload (shared with R07.8); R05.9 every datagram and every first stream segment is looked up in (and recorded by) the replay cache before any decryption, and a replay yields no segment (shared with R06.1, R06.2): observed traffic re-sent by a party without a credential creates nothing",
+		NotDecided:  "timing side channels, the drain's length distribution, TCP-level behaviour (RST vs FIN), strength of the AEAD itself.",
 		Assumptions: []string{"VTA call graph is sound for the interface calls on the analysed paths"},
 		Rules: []Rule{
 			{ID: "R05.1", Floor: 5, Text: "every conn.Write (StreamUnderlay) / conn.WriteTo (PacketUnderlay) site is preceded on all paths by maybeInitSendBlockCipher()==nil (stream), or encrypts with a cipher from {client key, seg.block, Session.block} (packet)", Run: r05_1},
@@ -1082,7 +1082,9 @@ func leafKind(l ssa.Value) string {
 	return strings.TrimPrefix(strings.TrimPrefix(fmtT(l), "*ssa."), "ssa.")
 }
 
-func itoa(i int) string { return strings.TrimSpace(strings.Replace(strings.Repeat("x", 0)+fmtInt(i), " ", "", -1)) }
+func itoa(i int) string {
+	return strings.TrimSpace(strings.Replace(strings.Repeat("x", 0)+fmtInt(i), " ", "", -1))
+}
 
 // clientSends reports whether a protocol constant (by name) is one a client
 // sends to a server.
